@@ -11,7 +11,7 @@ loop (E is evaluated once, as in the original); a tuple pattern of identifiers a
 modes, `a = &e.0`, `b = &e.1`.  The counter is incremented before the body so that `continue` keeps its meaning
 (Verus' own `for` does not accept `continue`).  Differences from core R4f: E may be a range-indexed slice
 (`v[a..b]`), the pattern may be a flat tuple of identifiers, E is bound once.  K numbers the rewritten loops in textual
-order so that invariants can name `vx_sK` / `vx_nK`.  If E is not a slice/Vec the result does not type-check (rustc, exit 2).
+order so that invariants can name `vx_sK` / `vx_nK`.  The rewritten loop is preceded by an empty statement `;` (no effect).  If E is not a slice/Vec the result does not type-check (rustc, exit 2).
 """
 from ..lexer import lex, sig
 from ..extract import match_close
@@ -57,7 +57,8 @@ def r4i_iter_for(text, log):
                 bind = "let %s = &%s[%s]; " % (e, s, n) + " ".join("let %s = &%s.%d;" % (x, e, j) for j, x in enumerate(names))
             else:
                 bind = "let %s = &%s[%s];" % (names[0], s, n)
-            new = "{ let %s = &%s; let mut %s = 0; while %s < %s.len() { %s %s += 1; %s} }" % (s, e_txt, n, n, s, bind, n, body)
+            # the leading empty statement keeps the generated block from being parsed as a clause of a preceding loop body
+            new = "; { let %s = &%s; let mut %s = 0; while %s < %s.len() { %s %s += 1; %s} }" % (s, e_txt, n, n, s, bind, n, body)
             text = text[:st[i].start] + new + text[st[c].end:]
             log["R4i iter-for -> while"] = log.get("R4i iter-for -> while", 0) + 1
             done = False
